@@ -198,6 +198,20 @@ func concRun(c *hx.Ctx, n, g, steps int) {
 				st.mat = sortedVals(ownOnly(t.Match(st.name), lo, hi))
 				st.srch = sortedVals(ownOnly(t.Search(st.filter), lo, hi))
 				p.res = append(p.res, st)
+				// the remaining exported methods also run concurrently (their answers depend on the
+				// other goroutines; they are here for the race detector and the runtime's map checks)
+				switch k % 9 {
+				case 0:
+					_ = t.Count()
+				case 2:
+					_ = t.All()
+				case 4:
+					_ = t.String()
+				case 6:
+					_ = t.MatchFirst(st.name)
+				case 8:
+					_ = t.SearchFirst(st.filter)
+				}
 				if k%7 == 0 {
 					runtime.Gosched()
 				}
